@@ -553,7 +553,6 @@ func c17sizes(c *Check, rng *rand.Rand, limit int) {
 	}
 }
 
-
 // c17authUncovered: AUTH is answered by the proxy itself whatever the topology: here
 // a slot range has no owner and the passwords tried hash into it.
 func c17authUncovered(c *Check, rng *rand.Rand) {
